@@ -170,7 +170,12 @@ class DataReadout(MeterMessageBase):
     @property
     def is_valid(self) -> bool:
         """Return True when valitation (checksum etc.) is successfull."""
-        expected_checksum = self.expected_checksum
+        try:
+            expected_checksum = self.expected_checksum
+        except ValueError:
+            # end line is not ASCII or the text after '!' is not a hexadecimal number
+            _LOGGER.debug("Invalid end line in readout.")
+            return False
         if expected_checksum is not None:
             if self._calculated_crc != expected_checksum:
                 _LOGGER.debug(
@@ -182,7 +187,7 @@ class DataReadout(MeterMessageBase):
         try:
             self._ident = self.identification_line
         except ValueError:
-            _LOGGER.debug("Invalid ident line: %s", self.identification_line)
+            _LOGGER.debug("Invalid ident line in readout.")
             return False
 
         for char in self._readout[self._data_pos : self._end_pos]:
@@ -289,7 +294,10 @@ class ModeDReader(MeterReaderBase[DataReadout]):
 
             if self.is_in_hunt_mode:
                 if line[0] == START_CHARACTER_HEX:
-                    line_str = line.decode("ascii")
+                    try:
+                        line_str = line.decode("ascii")
+                    except UnicodeDecodeError:
+                        continue  # line noise, not an identification line
                     if Ident.is_ident_line(line_str):
                         _LOGGER.debug("Ident line found: %s", line_str)
                         self._is_int_hunt_mode = False
